@@ -33,7 +33,7 @@ type HarnessEntry struct {
 	Stubs         map[string]*ssa.Function // entry-specific redirections
 	Float         string   // "" = E2 with relative-error bound, "mono" = monotonic anchors only
 	Doc           string
-	Recycle       int // restart solver + term context once this many float-axiom terms have accumulated (0 = default 150)
+	Recycle       int // restart solver + term context once this many float-axiom terms have accumulated (0 = default: after every run that used float axioms)
 }
 
 type Worker struct {
@@ -259,7 +259,7 @@ func (d *Driver) workerLoop(w *Worker, entry *HarnessEntry, deadline time.Time) 
 			d.confirm(w, entry, r)
 		}
 
-		if lim := entry.Recycle; (lim > 0 && len(w.tc.flTerms) >= lim) || len(w.tc.flTerms) > 150 || len(w.tc.all) > 300000 {
+		if lim := entry.Recycle; (lim > 0 && len(w.tc.flTerms) >= lim) || len(w.tc.flTerms) >= 1 || len(w.tc.all) > 300000 {
 			if err := w.recycle(); err != nil {
 				r.inconclusive = "cannot restart solver: " + err.Error()
 			}
